@@ -25,6 +25,7 @@ ALPHABET = (
     + [("sync", None), ("fetch_paths", None), ("fetch_paths_absent", None)]
 )
 LIVE_OPS = [("store", B), ("fetch", B), ("has", B), ("store", M), ("fetch", M), ("has", M), ("fetch", P)]
+ALIAS_OPS = [("store", M), ("fetch", M), ("mutate_fetched", M), ("fetch", P)]
 ARRAY_OPS = [("store", F), ("fetch", F), ("has", F), ("store", Z), ("fetch", Z), ("store", E), ("fetch", E), ("fetch", P)]
 # path operations that move one path between two keys and back (A, B, A ...)
 PATH_OPS = [("sync_q_to", P), ("sync_q_to", N), ("sync_r_to", P), ("sync", None), ("fetch_paths", None)]
@@ -101,6 +102,13 @@ def run_sequence(under, cap, seq, root, rep, check_bound):
                     refs.append(weakref.ref(a[1]))
                 except TypeError:
                     pass
+        elif op == "mutate_fetched":
+            # the client changes the object it got from fetch_blob in place (sorts / extends a list result)
+            a, b = _answer(lambda: w.fetch_blob(key)), _answer(lambda: s2.fetch_blob(key))
+            for x in (a, b):
+                if x[0] == "ok" and isinstance(x[1], list):
+                    x[1].append("changed-by-the-caller-after-fetch")
+            a = b = ("ok", None)
         elif op == "store":
             v = value_of(k)
             v2 = value_of(k)
@@ -151,6 +159,8 @@ def run_sequence(under, cap, seq, root, rep, check_bound):
                         break
                 if not stored_before_fetch:
                     mech = "lru-caches-absent-fetch"
+            if ("mutate_fetched", k) in prior and op == "fetch" and a[0] == "ok" and "changed-by-the-caller-after-fetch" in repr(a[-1]) and "changed-by-the-caller-after-fetch" not in repr(b[-1]):
+                mech = "cached-object-aliased-to-caller"
             out.append(("%s cap=%s after %r: wrapped answered %r, bare store %r" % (under, cap, seq[: step + 1], a, b), mech))
             break
         a = b = ta = tb = v = v2 = None
@@ -245,6 +255,7 @@ def run(tier, seed):
     for n in range(2, 4 if tier == "quick" else 5):
         liveseqs += [list(t) for t in itertools.product(LIVE_OPS, repeat=n)]
         liveseqs += [list(t) for t in itertools.product(ARRAY_OPS, repeat=n) if n <= 3]
+        liveseqs += [list(t) for t in itertools.product(ALIAS_OPS, repeat=n) if n <= 3 and ("mutate_fetched", M) in t]
     pathseqs = []
     for n in range(2, 5 if tier == "quick" else 7):
         pathseqs += [list(t) for t in itertools.product(PATH_OPS, repeat=n)]
